@@ -509,6 +509,39 @@ def loop_exit(ctx):
         ok = unreachable_without(f, oks[0]['block'], removed_edges=te) and fresh_at(sites, s_['block'])
     ctx.ob(['C10', 'C12'], 'R-DOM', 'C10-D1|success-only-when-worklist-empty', ok,
            'Ok(ResolvedSemanticState) can be reached only over the true edge of unresolved().is_empty() (a build never succeeds with an item left unresolved)', where)
+    # extern values are resolved once the worklist loop is over: types that only come into being during resolution (a
+    # generated vftable struct) exist by then.  Every site that reaches resolve_extern_values lies behind the loop.
+    wl = [L for L in f.loops() if any(c['block'] in L[1] or c['block'] == L[0] for c in ucalls)]
+    ev_sites = []
+    for c in f.calls(lambda r: True):
+        tgt = c['path'] or ''
+        reach_ = tgt.endswith('Module::resolve_extern_values')
+        if not reach_:
+            ids_ = [x[1] for x in walk(f.expr_of_call(c['term'])) if isinstance(x, tuple) and x and x[0] in ('closure', 'fnref') and isinstance(x[1], str)]
+            if tgt in P.fns and not may_mutate(c):
+                ids_ = []
+            elif tgt in P.fns:
+                ids_.append(tgt)
+            reach_ = any(i_.endswith('Module::resolve_extern_values') or any(y.endswith('Module::resolve_extern_values') for y in P.closure_of_calls(i_, kinds=('call', 'closure', 'fnref'))) for i_ in ids_ if i_ in P.fns)
+        if reach_:
+            ev_sites.append(c['block'])
+
+    def reaches(a, targets):
+        seen_, st = {a}, [a]
+        while st:
+            b_ = st.pop()
+            for s2 in f.succ(b_):
+                if s2 in targets:
+                    return True
+                if s2 not in seen_:
+                    seen_.add(s2)
+                    st.append(s2)
+        return False
+    hdrs = {L[0] for L in wl}
+    bodies = set().union(*[set(L[1]) | {L[0]} for L in wl]) if wl else set()
+    ok_ev = bool(wl) and bool(ev_sites) and all(b_ not in bodies and not reaches(b_, hdrs) for b_ in ev_sites)
+    ctx.ob(['C10'], 'R-DOM', 'C10-D1|extern-values-after-resolution', ok_ev,
+           'resolve_extern_values is reached only behind the resolution loop (%d site(s), %d worklist loop(s)): a type generated while resolving can be named by an extern value' % (len(ev_sites), len(wl)), where)
     sw = [x[0] for x in sw]
     # every other way out of the worklist loop is an Err
     outer = None
@@ -1359,7 +1392,7 @@ def registration(ctx):
     if len(mi) == 1:
         e = am.expr_of_call(mi[0]['term'])
         okm = strip(e[2][1])[0] == 'arg' and bool(find_calls(e[2][2], 'Module::new'))
-    ctx.ob(['C14', 'C19'], 'R-EXPR', 'AM|module-under-own-path', okm, 'add_module stores the module under the path it was given')
+    ctx.ob(['C14', 'C19', 'C05'], 'R-EXPR', 'AM|module-under-own-path', okm, 'add_module stores the module under the path it was given')
 
 
 def cycle_without_except_err(f, L, block):
